@@ -461,7 +461,7 @@ func main() {
 	logrus.SetOutput(io.Discard)
 	logrus.SetLevel(logrus.PanicLevel)
 	res = &rep.Result{Property: f.Prop, Engine: "stubsub", Exhaustive: true, Bounds: map[string]any{},
-		Rule:        "one Go type per subset S of the 13 handler interfaces, each with and without a Configure handler; (1) Configure with requested masks {0, S, all, S minus/plus each bit, every single bit, invalid high bits} (thorough: every mask 0..8191) on one long-lived stub per type; (2) every event through the PluginService methods with distinctive arguments, handlers succeeding and failing; (3) a sample of types through a real connection to a real runtime; distinct = (type, mask) and (type, event, outcome) combinations, all non-trivial",
+		Rule:        "one Go type per subset S of the 13 handler interfaces, each with and without a Configure handler; (1) Configure with requested masks {0, S, all, S minus/plus each bit, every single bit, invalid high bits} (thorough: every mask 0..8191) on one long-lived stub per type; (2) every event through the PluginService methods with distinctive arguments, handlers succeeding and failing; (3) a sample of types through a real connection to a real runtime; (4) Synchronize split into 1..3 messages of 0..2 pods and 0..2 containers, twice on one stub, handler succeeding and failing; distinct = (type, mask) and (type, event, outcome) combinations, all non-trivial",
 		Assumptions: []string{"Configure is called through an export wrapper that supplies the result channel Start normally creates"}}
 	if f.Replay != "" {
 		fmt.Println("replay: re-running the deterministic enumeration")
@@ -492,6 +492,7 @@ func main() {
 			fs = append(fs, genTypes[i])
 		}
 		res.Bounds["full_stack_types"] = checkFullStack(fs)
+		res.Bounds["split_synchronizations"] = checkSyncDispatch()
 	}
 	res.Distinct = res.Evaluations
 	res.Bounds["types"] = len(genTypes)
